@@ -5,7 +5,7 @@ From Coq Require Import Lia.
 From RecordUpdate Require Import RecordUpdate.
 From Model Require Import Base SeqNum Wire Conn PackEnv.
 From Gen Require Import Kernels.
-From Proofs Require Import WireP PackP C09P.
+From Proofs Require Import WireP PackP C09P PackInvP.
 Import RecordSetNotations.
 Open Scope Z_scope.
 
@@ -140,6 +140,70 @@ Theorem C09_fit_together : forall e c now ka delay,
                /\ c_outgoing c' = [].
 Proof. exact build_impl_together. Qed.
 Print Assumptions C09_fit_together.
+
+(* 6. no sequence of events can make packet construction raise or lose queued messages.
+      conn_ok — queued messages and the messages a RetrySender would re-queue carry 16-bit
+      sequence numbers and a real packet type — holds initially and is preserved by every event
+      (send, ticks, received datagrams, acks, time-outs, disconnect, handshake, settings) *)
+Theorem C09_invariant : forall e b xs, conn_ok (conn0 b) /\ (forall c, conn_ok c -> conn_ok (fst (run e c xs))).
+Proof. intros e b xs. split; [apply conn0_ok|intros c; apply run_ok]. Qed.
+Print Assumptions C09_invariant.
+
+(* ... and on every such state Packet.create succeeds: emit hands exactly one datagram to the
+   socket, whose length field is the payload length (< 64 KiB) and whose count (<= 255) is
+   the number of messages *)
+Theorem C09_pack_never_raises : forall mtu e c xs now ka delay c' pk cx,
+  512 <= mtu <= 1500 -> env_of_mtu mtu = Ok e -> conn_ok c ->
+  build_impl e (fst (run e c xs)) now ka delay = (c', Some pk) ->
+  exists p, emit cx pk = [OEmit (emit_header (fst pk) p) (rx_key (c_key cx) (h_type (fst pk))) p]
+            /\ encode_msgs (map wmsg_of (snd pk)) = Ok p /\ len p = payload_size (snd pk) /\ len p < 2 ^ 16
+            /\ h_count (fst pk) = len (snd pk) /\ len (snd pk) <= 255.
+Proof.
+  intros mtu e c xs now ka delay c' pk cx Hm He H E.
+  apply (pack_never_raises_proof e (fst (run e c xs)) now ka delay c' pk cx); [apply run_ok; exact H| |exact E].
+  rewrite env_of_mtu_spec in He. injection He as <-. cbn. lia.
+Qed.
+Print Assumptions C09_pack_never_raises.
+
+(* pack_total without side condition: on every reachable state nothing queued is lost *)
+Theorem C09_pack_total_reachable : forall e c xs now ka delay c' r,
+  conn_ok c ->
+  build_impl e (fst (run e c xs)) now ka delay = (c', r) ->
+  exists from_retry from_out,
+    Interleave from_out (c_outgoing c') (c_outgoing (fst (run e c xs)))
+    /\ (forall m, In m from_retry -> In m (map snd (c_pretry_msg (fst (run e c xs)))))
+    /\ match r with
+       | Some (h, ms) => ms = map (stamp now) (from_retry ++ from_out) /\ h_count h = len ms /\ len ms <= 255
+       | None => from_retry = [] /\ from_out = []
+       end.
+Proof.
+  intros e c xs now ka delay c' r H E.
+  exact (pack_total_build e _ now ka delay c' r (conn_ok_no_unknown _ (run_ok e xs c H)) E).
+Qed.
+Print Assumptions C09_pack_total_reachable.
+
+(* 7. end to end: on a reachable state the built packet is encoded (sealed or CRC form) into at
+      most mtu-28 bytes and the peer's decoder returns exactly the messages put into it *)
+Theorem C09_built_packet_bytes :
+  forall (crc : list byte -> Z) seal open, (forall l, 0 <= crc l < 2 ^ 32) ->
+  (forall k iv aad p, open k iv aad (seal k iv aad p) = Some p) ->
+  (forall k iv aad p, length (seal k iv aad p) = (length p + 16)%nat) ->
+  forall mtu e c xs now ka delay c' h0 ms key extra,
+  512 <= mtu <= 1500 -> env_of_mtu mtu = Ok e -> conn_ok c ->
+  build_impl e (fst (run e c xs)) now ka delay = (c', Some (h0, ms)) ->
+  hdr_fields_ok h0 ->
+  exists d payload,
+    to_bytes crc seal key h0 (map wmsg_of ms) = Ok d
+    /\ len d <= mtu - 28
+    /\ decode_header (h_to_server h0) (d ++ extra) = Ok (built_header h0 (map wmsg_of ms) payload)
+    /\ from_bytes crc open (rx_key key (h_type h0)) (built_header h0 (map wmsg_of ms) payload) (d ++ extra)
+       = Ok (map wmsg_of ms).
+Proof.
+  intros crc seal open H1 H2 H3 mtu e c xs now ka delay c' h0 ms key extra Hm He H E Hf.
+  exact (built_packet_bytes crc seal open H1 H2 H3 mtu e _ now ka delay c' h0 ms key extra ltac:(lia) He
+           (run_ok e xs c H) E Hf).
+Qed.
+Print Assumptions C09_built_packet_bytes.
 
 (* ---- non-vacuity ---- *)
 (* the AEAD hypotheses are consistent: the toy scheme of PackEnv.v and the real CRC-32 satisfy them *)
